@@ -76,7 +76,12 @@ URL_TARGETS = ["index.html", "lists/modules.html", "module/foo.html"]  # files e
 # that also defines one of these names itself still gets the documented meaning of |page| |media| |url|
 USER_ALIASES = ["docs = https://example.org/docs", "media = https://example.org/elsewhere", "page = ../wiki",
                 "url = https://example.org", "Media = x"]
-DEFAULT_CFG = {"media_dir": None, "media_files": [], "output_dir": "doc", "alias": []}
+# project-level `copy_subdir` (round 6): "first priority is the option in the *.md file, if this option is not set in the
+# file fall back to the global project settings"; the names are tried next to EVERY page that sets none itself, so most
+# of them exist next to some pages only (a list whose first names are missing next to a page is the normal case)
+PROJ_COPY_LISTS = [["media"], ["img"], ["nodir", "media"], ["figures", "img", "d1"], ["missing", "sub", "media"],
+                   ["d2", "deep"], ["media", "img", "x1"], ["Sub", "nodir2", "d1", "img"]]
+DEFAULT_CFG = {"media_dir": None, "media_files": [], "output_dir": "doc", "alias": [], "copy_subdir": []}
 
 # where in the Markdown text of a page a link is written (round 5).  Every one of these is rendered as a link by
 # Python-Markdown; `{L}` is the link (or image).  An alias is documented to work anywhere in the text, so the
@@ -139,7 +144,10 @@ def gen_configs(rng, n):
         al = []
         if k >= 3 and (k == 4 or rng.random() < 0.4):
             al = sorted(rng.sample(USER_ALIASES, rng.randint(1, 2)))
-        cfg = {"media_dir": md, "media_files": files, "output_dir": od, "alias": al}
+        pc = []
+        if k in (2, 4) or (k > 4 and rng.random() < 0.4):
+            pc = list(rng.choice(PROJ_COPY_LISTS))
+        cfg = {"media_dir": md, "media_files": files, "output_dir": od, "alias": al, "copy_subdir": pc}
         if cfg_ok(cfg) and not any(c["media_dir"] == md and c["output_dir"] == od for c in cfgs):
             cfgs.append(cfg)
     return cfgs
@@ -151,6 +159,8 @@ def cfg_options(cfg):
         o["media_dir"] = "./" + cfg["media_dir"]
     if cfg.get("alias"):
         o["alias"] = list(cfg["alias"])
+    if cfg.get("copy_subdir"):
+        o["copy_subdir"] = list(cfg["copy_subdir"])
     return o
 
 
@@ -436,13 +446,19 @@ def spec_stem(name):
     return name[:-3]
 
 
-def spec_tree(ch, loc=(), enc=UTF8):
+def eff_copy(m, pcs):
+    """the documented rule: the page's own `copy_subdir` if it sets one, the project's otherwise"""
+    return list(m["copy"]) if m["copy"] else list(pcs)
+
+
+def spec_tree(ch, loc=(), enc=UTF8, pcs=()):
     """Expected page tree per the property statement: a directory with a titled index.md is a
     sub-tree; every titled, visible *.md in it is one page at the same relative path; children
     ordered by ordered_subpage first (first occurrences, only names that exist), the rest
     alphabetically (code-point order of sorted()); visible non-Markdown files are assets.
     The files are files of the project, i.e. text in the project's `encoding` (`enc`) at every
     depth; a file that is not text in that encoding shows no title.
+    `copy` of a page: its own `copy_subdir`, or else the project's (`pcs`).
     Returns None or dict(path, title, src, subs, files, loc, copy)."""
     if not has_titled_index(ch, enc):
         return None
@@ -451,7 +467,7 @@ def spec_tree(ch, loc=(), enc=UTF8):
     order = [n for n in OrderedDict.fromkeys(idx["ordered"]) if n in names] + \
             [n for n in names if n not in idx["ordered"]]
     node = {"path": "/".join(loc + ("index.html",)), "title": idx["title"], "loc": loc, "subs": [], "files": [],
-            "copy": idx["copy"], "links": idx["links"], "entity": idx["entity"], "src": loc + ("index.md",),
+            "copy": eff_copy(idx, pcs), "links": idx["links"], "entity": idx["entity"], "src": loc + ("index.md",),
             "na": idx.get("na")}
     for n in order:
         if is_hidden(n):
@@ -460,13 +476,13 @@ def spec_tree(ch, loc=(), enc=UTF8):
         if e.get("link") == "dangling":
             continue  # a link to nothing is neither a file nor a directory
         if e["k"] == "D":
-            sub = spec_tree(e["ch"], loc + (n,), enc)
+            sub = spec_tree(e["ch"], loc + (n,), enc, pcs)
             if sub is not None:
                 node["subs"].append(sub)
         elif is_md(n):
             if seen_title(e, enc) is not None:
                 node["subs"].append({"path": "/".join(loc + (spec_stem(n) + ".html",)), "title": e["meta"]["title"],
-                                     "loc": loc, "subs": [], "files": [], "copy": e["meta"]["copy"],
+                                     "loc": loc, "subs": [], "files": [], "copy": eff_copy(e["meta"], pcs),
                                      "links": e["meta"]["links"], "entity": e["meta"]["entity"], "src": loc + (n,),
                                      "na": e["meta"].get("na")})
         else:
@@ -479,6 +495,108 @@ def spec_preorder(node):
     for s in node["subs"]:
         out += spec_preorder(s)
     return out
+
+
+def listing_of(e, prefix):
+    """everything below directory entry `e` (as it looks through links), itself included: [(path tuple, is_dir)]"""
+    out = [(prefix + (e["name"],), True)]
+    for c in e["ch"]:
+        if c.get("link") == "dangling":
+            continue
+        if c["k"] == "D":
+            out += listing_of(c, prefix + (e["name"],))
+        else:
+            out.append((prefix + (e["name"], c["name"]), False))
+    return out
+
+
+def dir_entry(ch, name):
+    e = find_file(ch, name)
+    if e is not None and e["k"] == "D" and e.get("link") != "dangling":
+        return e
+    return None
+
+
+def spec_assets(ch, enc=UTF8, pcs=()):
+    """what the statement expects below <output>/page besides the pages: every visible other file next to its page,
+    every directory named by a page's `copy_subdir` (own, or else the project's) with everything in it.
+    Set of (path, is_dir)."""
+    out = set()
+
+    def walk(ch, loc):
+        if not has_titled_index(ch, enc):
+            return
+        for e in ch:
+            if is_hidden(e["name"]) or e.get("link") == "dangling":
+                continue
+            if e["k"] == "D":
+                walk(e["ch"], loc + (e["name"],))
+            elif is_md(e["name"]):
+                if seen_title(e, enc) is not None:
+                    for item in eff_copy(e["meta"], pcs):
+                        d = dir_entry(ch, item)
+                        if d is not None:
+                            out.update(("/".join(p), isd) for p, isd in listing_of(d, loc))
+            else:
+                out.add(("/".join(loc + (e["name"],)), False))
+
+    walk(ch, ())
+    return out
+
+
+def avoid_late_copies(ch, pcs, enc, feat):
+    """generator scope (see notes/C17.md): a page other than index.md names, through the project's list, a directory
+    that becomes a sub-tree only when the index page of its directory names it too (then the directory is copied before
+    its pages are written; a copy into the already written sub-tree fails with `File exists`)"""
+    if not pcs:
+        return
+    idx = find_file(ch, "index.md")
+    if idx is not None and idx["k"] == "F" and idx["meta"] is not None and idx["meta"]["copy"]:
+        leafs = [e for e in ch if e["k"] == "F" and e["name"] != "index.md" and is_md(e["name"]) and e["meta"] is not None
+                 and not e["meta"]["copy"]]
+        if leafs:
+            for x in pcs:
+                d = dir_entry(ch, x)
+                if d is not None and x not in idx["meta"]["copy"] and has_titled_index(d["ch"], enc):
+                    idx["meta"]["copy"].append(x)
+                    feat.add("index-names-the-project-directory-too")
+    for e in ch:
+        if e["k"] == "D":
+            avoid_late_copies(e["ch"], pcs, enc, feat)
+
+
+def copy_features(ch, enc, pcs, feat, stats):
+    """which situations of the hand-down / of the copy loops the expected pages of this directory contain"""
+    st = spec_tree(ch, enc=enc, pcs=pcs)
+    if st is None:
+        return
+
+    def walk(node, ch, overridden_above):
+        own = bool(find_file(ch, node["src"][-1])["meta"]["copy"])
+        if pcs and not own:
+            stats["pages_falling_back_to_the_project_list"] += 1
+            feat.add("project-copy-falls-back")
+            if overridden_above:
+                stats["fallback_pages_below_an_index_with_its_own_list"] += 1
+                feat.add("project-copy-falls-back-below-an-overriding-index")
+        seen_failed = False
+        for item in node["copy"]:
+            if dir_entry(ch, item) is None:
+                seen_failed = True
+            else:
+                stats["copy_items_that_are_directories"] += 1
+                if seen_failed:
+                    stats["copy_items_behind_an_item_that_cannot_be_copied"] += 1
+                    feat.add("copy-item-behind-a-failing-item")
+        is_index = node["src"][-1] == "index.md"
+        for sub in node["subs"]:
+            if sub["src"][-1] == "index.md":
+                d = dir_entry(ch, sub["src"][-2])
+                walk(sub, d["ch"], overridden_above or (is_index and own))
+            else:
+                walk(sub, ch, overridden_above or (is_index and own))
+
+    walk(st, ch, False)
 
 
 def is_image(rest):
@@ -663,6 +781,10 @@ def gen_tree(rng, k, feat, cfgs=(DEFAULT_CFG,)):
     encode_tree(rng, ch, enc, feat)
     deeper = all_dir_names(ch, set())
     decorate(rng, ch, feat, deeper, p_dangling=0.02, enc=enc)
+    pcs = cfgs[ci].get("copy_subdir") or []
+    if pcs:
+        feat.add("project-copy-subdir")
+        avoid_late_copies(ch, pcs, enc, feat)
     add_links(rng, ch, feat, spec_tree(ch, enc=enc), cfg=cfgs[ci])
     if rng.random() < 0.3:
         add_symlinks(rng, ch, feat, p_entry=rng.choice([0.08, 0.2, 0.4]))
@@ -1097,7 +1219,7 @@ def link_target(node, alias, rest):
     return os.path.normpath(os.path.join("page", *node["loc"], rest))
 
 
-def defect_classes(ch, enc=UTF8):
+def defect_classes(ch, enc=UTF8, pcs=()):
     """Decidable description of the known-defect classes present in an input.
     Returns dict class -> set of affected things."""
     cls = {F_MISSING: [], F_DOTTED: [], F_GRANDPARENT: []}
@@ -1121,7 +1243,8 @@ def defect_classes(ch, enc=UTF8):
                 if parent_copy is not None and e["name"] in parent_copy:
                     if spec_tree(e["ch"], loc + (e["name"],), enc) is not None:
                         cls[F_GRANDPARENT].append("/".join(loc + (e["name"],)))
-                walk(e["ch"], loc + (e["name"],), idx["copy"], True)
+                # (the list in effect for the index page: its own, or else the project's)
+                walk(e["ch"], loc + (e["name"],), eff_copy(idx, pcs), True)
 
     walk(ch, (), None, True)
     return {k: v for k, v in cls.items() if v}
@@ -1131,8 +1254,9 @@ def oracle(ch, im, src_root: Path, out: Path, enc=UTF8, cfg=DEFAULT_CFG):
     """List of (why, finding id or None).  Empty = the property holds on this input.
     `cfg` = the project configuration the pages were built in (media directory, output directory)."""
     fails = []
-    exp = spec_tree(ch, enc=enc)
-    classes = defect_classes(ch, enc)
+    pcs = cfg.get("copy_subdir") or []
+    exp = spec_tree(ch, enc=enc, pcs=pcs)
+    classes = defect_classes(ch, enc, pcs)
     if im["status"] == "abort":
         fails.append((f"run aborted: requested page file {im['abort']} does not exist; no page is produced",
                       F_MISSING if im["abort"] in classes.get(F_MISSING, []) else None))
@@ -1277,6 +1401,17 @@ def oracle(ch, im, src_root: Path, out: Path, enc=UTF8, cfg=DEFAULT_CFG):
                     dpth = out.joinpath("page", *n["loc"]) / sp.relative_to(src_root.joinpath(*n["loc"]))
                     if not dpth.is_file() or dpth.read_bytes() != sp.read_bytes():
                         fails.append((f"copy_subdir {item} of {n['path']}: {sp.relative_to(src_root)} not copied", None))
+    # ... and the mirror read the other way round (round 6): nothing is below <output>/page but the pages, the
+    # directories that hold them, the other files and the directories named by the copy_subdir IN EFFECT for a page
+    # (the page's own list or else the project's - not both, not an ancestor's)
+    allowed = {p for p, _ in spec_assets(ch, enc, pcs)} | set(exp_paths)
+    for p in exp_paths:
+        parts = p.split("/")[:-1]
+        allowed.update("/".join(parts[:k]) for k in range(1, len(parts) + 1))
+    extra = [x for x in im["out"] if x.rstrip("/") not in allowed]
+    for x in extra[:4]:
+        fails.append((f"{x} below <output>/page is neither a page, nor a file next to a page, nor part of a directory "
+                      f"named by the copy_subdir in effect for a page", None))
     return fails
 
 
@@ -1750,6 +1885,9 @@ def run(tier: str, seed: int, replay: str | None = None) -> int:
     n_bad_corr = 0
     n_oracle_fail = 0
     n_shrunk = 0
+    copy_stats = {"assets_expected": 0, "pages_falling_back_to_the_project_list": 0,
+                  "fallback_pages_below_an_index_with_its_own_list": 0, "copy_items_that_are_directories": 0,
+                  "copy_items_behind_an_item_that_cannot_be_copied": 0}
     mult = {"pages_with_source_checked": 0, "trees_with_two_files_on_one_page": 0,
             "trees_with_a_name_listed_twice_and_found": 0}
     with common.scratch_dir() as d:
@@ -1794,7 +1932,8 @@ def run(tier: str, seed: int, replay: str | None = None) -> int:
             feat: set[str] = set()
             ch, enc, ci = gen_tree(rng, k, feat, cfgs)
             trees.append((ch, feat, enc, ci))
-        reqs = [["c17.tree", variant, str(impls[ci].out), cwd, enc, *tokens(ch)] for ch, _, enc, ci in trees]
+        reqs = [["c17.tree", variant, str(impls[ci].out), cwd, enc, RS.join(str(x) for x in impls[ci].proj_copy),
+                 *tokens(ch)] for ch, _, enc, ci in trees]
         model = drv.batch(reqs)
         # the oracle's reading of the statement (spec_tree, Python) and the specification the theorems
         # are stated against (expPages, Lean) must agree on every generated directory
@@ -1806,6 +1945,24 @@ def run(tier: str, seed: int, replay: str | None = None) -> int:
                 rep.tie_broken("specification: Lean expPages and the harness oracle's expected pages differ",
                                {"stream": "spec", "files": pages_dict(ch), "encoding": enc, "lean": ls[1:], "oracle": mine})
                 break
+        # ... and on what is expected next to the pages (spec_assets, Python / expAssets, Lean), for the project's
+        # `copy_subdir` as the project file gives it
+        lean_assets = drv.batch([["c17.assets", enc, RS.join(cfgs[ci].get("copy_subdir") or []), *tokens(ch)]
+                                 for ch, _, enc, ci in trees])
+        for (ch, _, enc, ci), la in zip(trees, lean_assets):
+            pcs = cfgs[ci].get("copy_subdir") or []
+            mine = sorted(p + ("/" if isd else "") for p, isd in spec_assets(ch, enc, pcs))
+            if la[0] != "ok" or sorted(set(la[1:])) != mine:
+                rep.tie_broken("specification: Lean expAssets and the harness oracle's expected assets differ",
+                               {"stream": "spec", "files": pages_dict(ch), "encoding": enc, "project_copy_subdir": pcs,
+                                "lean-only": sorted(set(la[1:]) - set(mine))[:6], "oracle-only": sorted(set(mine) - set(la[1:]))[:6]})
+                break
+            copy_stats["assets_expected"] += len(mine)
+        for im_, cfg in zip(impls, cfgs):
+            if [str(x) for x in im_.proj_copy] != list(cfg.get("copy_subdir") or []):
+                rep.failing_input({"stream": "project", "config": cfg,
+                                   "why": f"ford.main starts the page walk with copy_subdir {[str(x) for x in im_.proj_copy]}, "
+                                          f"the project file says {cfg.get('copy_subdir') or []}"}, None)
 
         def check_one(ch, enc, ci=0):
             im = impls[ci].run(ch, enc)
@@ -1821,6 +1978,7 @@ def run(tier: str, seed: int, replay: str | None = None) -> int:
             if im["status"] == "ok" and listed_twice_and_found(ch):
                 mult["trees_with_a_name_listed_twice_and_found"] += 1
             status_hist[im["status"].split(":")[0]] = status_hist.get(im["status"].split(":")[0], 0) + 1
+            copy_features(ch, enc, cfgs[ci].get("copy_subdir") or [], feat, copy_stats)
             for f in feat:
                 feats_hist[f] = feats_hist.get(f, 0) + 1
             if im["status"] == "ok":
@@ -1871,8 +2029,9 @@ def run(tier: str, seed: int, replay: str | None = None) -> int:
                                    "symbolic_links": links_in(case_tree),
                                    "page_dir_is_a_symbolic_link": page_dir_is_link(case_tree),
                                    "why": [f[0] for f in fails][:6],
-                                   "defect_classes_in_input": {k2: v for k2, v in defect_classes(case_tree, enc).items()},
+                                   "defect_classes_in_input": {k2: v for k2, v in defect_classes(case_tree, enc, cfgs[ci].get("copy_subdir") or []).items()},
                                    "expected_pages": [n["path"] for n in spec_preorder(spec_tree(case_tree, enc=enc))] if spec_tree(case_tree, enc=enc) else None,
+                                   "expected_assets": sorted(p + ("/" if isd else "") for p, isd in spec_assets(case_tree, enc, cfgs[ci].get("copy_subdir") or []))[:40],
                                    "observed_pages": [n[0] for n in im.get("nodes", [])] if case_tree is ch else None},
                                   fid)
         e2e_stream(rng, n_e2e, rep, d, impls, feats_hist)
@@ -1894,6 +2053,7 @@ def run(tier: str, seed: int, replay: str | None = None) -> int:
         status_histogram=status_hist,
         e2e_runs=n_e2e,
         multiplicity=mult,
+        copy_subdir=copy_stats,
         alias_line_lists_compared=ev_alias,
         project_configurations=cfgs,
         probes=probe_results,
@@ -1911,7 +2071,8 @@ def run(tier: str, seed: int, replay: str | None = None) -> int:
         "the text-level alias model (PageAlias.lean) is compared with AliasPreprocessor.run on random lines over pipes, "
         "backslashes, blanks, tabs, alias names and line starts; lines contain no newline / carriage return",
         "ordered_subpage / copy_subdir items are plain names (no '/' or '..'; C19 covers escaping paths); "
-        "copy_subdir on a non-index page only names directories that do not become pages",
+        "a page other than index.md names (itself or through the project's copy_subdir) a directory that becomes a "
+        "sub-tree only when the index page of its directory names it too",
         "file contents of copied assets are compared on the implementation side only",
         "the media directory is copied once per project configuration by a complete ford.main run (and again in every "
         "e2e run); the per-tree runs reuse that output directory and rebuild only <output>/page",
